@@ -18,6 +18,13 @@ impl Sx {
             _ => panic!("expected list, got {:?}", self),
         }
     }
+    /// canonical text: atoms as they are, lists in parentheses separated by single spaces
+    pub fn show(&self) -> String {
+        match self {
+            Sx::Atom(s) => s.clone(),
+            Sx::List(l) => format!("({})", l.iter().map(|x| x.show()).collect::<Vec<_>>().join(" ")),
+        }
+    }
     pub fn head(&self) -> &str {
         match self {
             Sx::Atom(s) => s,
